@@ -40,77 +40,11 @@ theorem streamWrite_spec (p : Bytes) : (streamWrite p).flatten = p ∧ ∀ c ∈
 theorem encSize_length_le (n : Nat) : (encSize n).length ≤ 4 := by
   unfold encSize; split <;> simp
 
-theorem truncVal_bound (k v : Bytes) (h : panics k v = false) :
-    8 + k.length + (truncVal k v).length ≤ maxWrite := by
-  unfold panics at h
-  unfold truncVal
-  simp only [Bool.and_eq_false_iff, decide_eq_false_iff_not] at h
-  split
-  · rename_i hgt
-    simp only [List.length_take]
-    rcases h with h | h
-    · omega
-    · omega
-  · omega
-
 theorem encPair_length_le (k v : Bytes) : (encPair k v).length ≤ 8 + k.length + v.length := by
   unfold encPair
   have := encSize_length_le k.length
   have := encSize_length_le v.length
   simp only [List.length_append]; omega
-
-/-! ### the loop of writePairs -/
-theorem wpl_spec : ∀ (pairs : List (Bytes × Bytes)) (nn : Nat) (buf : Bytes) (out res : List Bytes),
-    writePairsLoop pairs nn buf out = some res → nn = buf.length → buf.length ≤ maxWrite →
-    (∀ c ∈ out, Good c) →
-    ∃ init, res = init ++ [[]] ∧ (∀ c ∈ init, Good c) ∧
-      init.flatten = out.flatten ++ buf ++ ((pairs.map truncPair).map (fun p => encPair p.1 p.2)).flatten ∧
-      (∀ p ∈ pairs, panics p.1 p.2 = false) := by
-  intro pairs
-  induction pairs with
-  | nil =>
-    intro nn buf out res h _ _ hout
-    simp only [writePairsLoop, Option.some.injEq] at h
-    obtain ⟨h1, h2⟩ := streamWrite_spec buf
-    refine ⟨out ++ streamWrite buf, by rw [← h], ?_, by simp [h1], by simp⟩
-    intro c hc
-    rcases List.mem_append.mp hc with h | h
-    · exact hout c h
-    · exact h2 c h
-  | cons p rest ih =>
-    intro nn buf out res h hnn hbuf hout
-    obtain ⟨k, v⟩ := p
-    unfold writePairsLoop at h
-    by_cases hp : panics k v = true
-    · simp [hp] at h
-    · have hp' : panics k v = false := by simpa using hp
-      simp only [hp', Bool.false_eq_true, if_false] at h
-      have hlen : (encPair k (truncVal k v)).length ≤ maxWrite := by
-        have := encPair_length_le k (truncVal k v)
-        have := truncVal_bound k v hp'
-        omega
-      obtain ⟨hs1, hs2⟩ := streamWrite_spec buf
-      by_cases hfl : nn + (encPair k (truncVal k v)).length > maxWrite
-      · simp only [hfl, if_true] at h
-        obtain ⟨init, e1, e2, e3, e4⟩ := ih _ _ _ _ h rfl hlen (by
-          intro c hc
-          rcases List.mem_append.mp hc with h | h
-          · exact hout c h
-          · exact hs2 c h)
-        refine ⟨init, e1, e2, ?_, ?_⟩
-        · rw [e3]; simp [hs1, truncPair]
-        · intro q hq
-          rcases List.mem_cons.mp hq with h | h
-          · subst h; exact hp'
-          · exact e4 q h
-      · simp only [hfl, if_false] at h
-        obtain ⟨init, e1, e2, e3, e4⟩ := ih _ _ _ _ h (by simp [hnn]) (by simp; omega) hout
-        refine ⟨init, e1, e2, ?_, ?_⟩
-        · rw [e3]; simp [truncPair]
-        · intro q hq
-          rcases List.mem_cons.mp hq with h | h
-          · subst h; exact hp'
-          · exact e4 q h
 
 /-! ### record layer: the SPEC parser inverts `frame` -/
 def toRec (id : Nat) (r : UInt8 × Bytes) : Rec := ⟨r.1, id, r.2⟩
@@ -268,58 +202,193 @@ theorem restRecs_all (a b : List Bytes) :
     (restRecs a b).all (fun r => r.id == 1 && (r.typ == 4 || r.typ == 5)) = true := by
   simp [restRecs, toRec, List.all_append, List.all_map]
 
-theorem wpl_isSome : ∀ (pairs : List (Bytes × Bytes)), (∀ p ∈ pairs, panics p.1 p.2 = false) →
-    ∀ nn buf out, (writePairsLoop pairs nn buf out).isSome = true := by
+/-! ### the call-level bufio writer: everything written comes out, in order, in sink calls -/
+def BW.stream (b : BW) : Bytes := b.out.flatten ++ b.buf
+def BW.Inv (b : BW) : Prop := b.buf.length ≤ maxWrite
+
+theorem BW.flush_spec (b : BW) (h : b.Inv) : b.flush.Inv ∧ b.flush.stream = b.stream := by
+  unfold BW.flush
+  by_cases h0 : b.buf.length = 0
+  · simp [h0, h]
+  · simp [h0, BW.Inv, BW.stream]
+
+theorem BW.flush_buf_nil_or (b : BW) : b.flush.buf = [] ∨ b.flush = b := by
+  unfold BW.flush
+  by_cases h0 : b.buf.length = 0
+  · right; simp [h0]
+  · left; simp [h0]
+
+theorem BW.writeLoop_spec (d : Bool) : ∀ (fuel : Nat) (b : BW) (p : Bytes), b.Inv →
+    2 * p.length + (if b.buf.length = maxWrite then 1 else 0) < fuel →
+    (BW.writeLoop d fuel b p).1.Inv ∧
+    (BW.writeLoop d fuel b p).1.stream ++ (BW.writeLoop d fuel b p).2 = b.stream ++ p ∧
+    (BW.writeLoop d fuel b p).2.length ≤ maxWrite - (BW.writeLoop d fuel b p).1.buf.length := by
+  intro fuel
+  induction fuel with
+  | zero => intro b p _ hm; omega
+  | succ f ih =>
+    intro b p hinv hm
+    unfold BW.writeLoop
+    by_cases hgt : p.length > maxWrite - b.buf.length
+    · simp only [hgt, if_true]
+      by_cases hd : d = true ∧ b.buf.length = 0
+      · obtain ⟨hd1, hd0⟩ := hd
+        subst hd1
+        simp only [hd0, and_self, if_true]
+        have hb : b.buf = [] := List.eq_nil_of_length_eq_zero hd0
+        have := ih { b with out := b.out ++ [p] } [] (by simpa [BW.Inv] using hinv)
+          (by simp only [List.length_nil]; split <;> omega)
+        obtain ⟨i1, i2, i3⟩ := this
+        refine ⟨i1, ?_, i3⟩
+        rw [i2]; simp [BW.stream, hb]
+      · simp only [hd, if_false]
+        have hinv' : b.buf.length ≤ maxWrite := hinv
+        have hn : min p.length (maxWrite - b.buf.length) = maxWrite - b.buf.length := by omega
+        rw [hn]
+        have hlen : (b.buf ++ p.take (maxWrite - b.buf.length)).length = maxWrite := by
+          simp only [List.length_append, List.length_take]; omega
+        have hfl : BW.flush { b with buf := b.buf ++ p.take (maxWrite - b.buf.length) } =
+            { buf := [], out := b.out ++ [b.buf ++ p.take (maxWrite - b.buf.length)] } := by
+          unfold BW.flush
+          have : ¬ (b.buf ++ p.take (maxWrite - b.buf.length)).length = 0 := by rw [hlen]; simp [maxWrite]
+          rw [if_neg this]
+        rw [hfl]
+        have := ih { buf := [], out := b.out ++ [b.buf ++ p.take (maxWrite - b.buf.length)] }
+          (p.drop (maxWrite - b.buf.length)) (by simp [BW.Inv])
+          (by
+            simp only [List.length_drop, List.length_nil]
+            have : ¬ (0 = maxWrite) := by simp [maxWrite]
+            simp only [this, if_false]
+            split at hm <;> omega)
+        obtain ⟨i1, i2, i3⟩ := this
+        refine ⟨i1, ?_, i3⟩
+        rw [i2]
+        simp [BW.stream]
+    · simp only [hgt, if_false]
+      exact ⟨hinv, trivial, by omega⟩
+
+theorem BW.write_spec (d : Bool) (b : BW) (p : Bytes) (h : b.Inv) :
+    (BW.write d b p).Inv ∧ (BW.write d b p).stream = b.stream ++ p := by
+  obtain ⟨i1, i2, i3⟩ := BW.writeLoop_spec d (2 * p.length + 3) b p h (by split <;> omega)
+  unfold BW.write
+  refine ⟨?_, ?_⟩
+  · simp only [BW.Inv, List.length_append]; have : (BW.writeLoop d (2 * p.length + 3) b p).1.buf.length ≤ maxWrite := i1; omega
+  · rw [← i2]; simp [BW.stream]
+
+theorem writePairsBW_spec : ∀ (pairs : List (Bytes × Bytes)) (nn : Nat) (b : BW), b.Inv →
+    (writePairsBW pairs nn b).Inv ∧
+    (writePairsBW pairs nn b).stream = b.stream ++ (pairs.map fun p => encPair p.1 p.2).flatten := by
   intro pairs
   induction pairs with
-  | nil => intro _ nn buf out; simp [writePairsLoop]
+  | nil => intro nn b h; simp [writePairsBW, h]
   | cons p rest ih =>
-    intro h nn buf out
+    intro nn b h
     obtain ⟨k, v⟩ := p
-    have hp := h (k, v) (List.mem_cons_self ..)
-    simp only at hp
-    unfold writePairsLoop
-    simp only [hp, Bool.false_eq_true, if_false]
-    split <;> exact ih (fun q hq => h q (List.mem_cons_of_mem _ hq)) _ _ _
+    unfold writePairsBW
+    simp only []
+    have hb1 : (if decide (nn + ((encSize k.length ++ encSize v.length).length + k.length + v.length) > maxWrite) = true
+        then b.flush else b).Inv ∧
+        (if decide (nn + ((encSize k.length ++ encSize v.length).length + k.length + v.length) > maxWrite) = true
+        then b.flush else b).stream = b.stream := by
+      split
+      · exact BW.flush_spec b h
+      · exact ⟨h, rfl⟩
+    generalize (if decide (nn + ((encSize k.length ++ encSize v.length).length + k.length + v.length) > maxWrite) = true
+        then b.flush else b) = b1 at hb1
+    obtain ⟨h1, s1⟩ := hb1
+    obtain ⟨h2, s2⟩ := BW.write_spec true b1 (encSize k.length ++ encSize v.length) h1
+    obtain ⟨h3, s3⟩ := BW.write_spec false _ k h2
+    obtain ⟨h4, s4⟩ := BW.write_spec false _ v h3
+    obtain ⟨h5, s5⟩ := ih _ _ h4
+    refine ⟨h5, ?_⟩
+    rw [s5, s4, s3, s2, s1]
+    simp [encPair]
+
+theorem flatten_map_streamWrite (l : List Bytes) : ((l.map streamWrite).flatten).flatten = l.flatten := by
+  induction l with
+  | nil => rfl
+  | cons c cs ih => simp [List.flatten_append, (streamWrite_spec c).1, ih]
+
+/-- the records of a writer: all but the closing empty one are non-empty and at most 65500 bytes, and together they are
+    exactly the bytes written -/
+theorem BW.records_spec (b : BW) (h : b.Inv) :
+    ∃ init, b.records = init ++ [[]] ∧ (∀ c ∈ init, Good c) ∧ init.flatten = b.stream := by
+  refine ⟨(b.flush.out.map streamWrite).flatten, rfl, ?_, ?_⟩
+  · intro c hc
+    obtain ⟨l, hl, hcl⟩ := List.mem_flatten.mp hc
+    obtain ⟨x, _, rfl⟩ := List.mem_map.mp hl
+    exact (streamWrite_spec x).2 c hcl
+  · rw [flatten_map_streamWrite]
+    have hs := (BW.flush_spec b h).2
+    rcases BW.flush_buf_nil_or b with hn | hn
+    · rw [← hs]; simp [BW.stream, hn]
+    · rw [hn]
+      -- flush = b means the buffer is empty
+      have : b.buf = [] := by
+        unfold BW.flush at hn
+        by_cases h0 : b.buf.length = 0
+        · exact List.eq_nil_of_length_eq_zero h0
+        · simp only [h0, if_false] at hn
+          have := congrArg BW.buf hn
+          simp at this
+          exact this
+      simp [BW.stream, this]
+
+theorem BW.write_fits (d : Bool) (b : BW) (p : Bytes) (h : p.length ≤ maxWrite - b.buf.length) :
+    BW.write d b p = { b with buf := b.buf ++ p } := by
+  unfold BW.write BW.writeLoop
+  have : ¬ p.length > maxWrite - b.buf.length := by omega
+  simp [this]
+
+theorem streamWrite_nil : streamWrite [] = [] := by simp [streamWrite, chunks]
+
+theorem bodyBW_records (body : Bytes) : (bodyBW body).records = streamWrite body ++ [[]] := by
+  unfold bodyBW
+  by_cases h : body.length ≤ maxWrite
+  · rw [BW.write_fits true _ _ (by simpa using h)]
+    simp only [BW.records, List.nil_append]
+    unfold BW.flush
+    by_cases h0 : body.length = 0
+    · have : body = [] := List.eq_nil_of_length_eq_zero h0
+      subst this; simp [streamWrite_nil]
+    · simp [h0]
+  · have hlt : maxWrite < body.length := by omega
+    have hw : BW.write true ⟨[], []⟩ body = ⟨[], [body]⟩ := by
+      simp [BW.write, BW.writeLoop, hlt]
+    rw [hw]
+    simp [BW.records, BW.flush]
 
 /-- all record contents `Do` emits, and what the SPEC parser makes of the bytes -/
-theorem request_parse (pairs : List (Bytes × Bytes)) (body bs : Bytes)
-    (h : encodeRequest pairs body = some bs) :
+theorem request_parse (pairs : List (Bytes × Bytes)) (body : Bytes) :
     ∃ init, (∀ c ∈ init, Good c) ∧
-      init.flatten = ((pairs.map truncPair).map (fun p => encPair p.1 p.2)).flatten ∧
-      (∀ p ∈ pairs, panics p.1 p.2 = false) ∧
-      requestRecords pairs body = some (((1 : UInt8), beginBody) ::
-        ((init ++ [[]]).map (fun c => ((4 : UInt8), c)) ++ (streamWrite body ++ [[]]).map (fun c => ((5 : UInt8), c)))) ∧
-      parse bs = some (toRec 1 (1, beginBody) :: restRecs (init ++ [[]]) (streamWrite body ++ [[]])) := by
-  unfold encodeRequest at h
-  cases hw : writePairsLoop pairs 0 [] [] with
-  | none => simp [requestRecords, hw] at h
-  | some ps =>
-    obtain ⟨init, e1, e2, e3, e4⟩ := wpl_spec pairs 0 [] [] ps hw rfl (by simp [maxWrite]) (by simp)
-    obtain ⟨b1, b2⟩ := streamWrite_spec body
-    subst e1
-    have hr : requestRecords pairs body = some (((1 : UInt8), beginBody) ::
-        ((init ++ [[]]).map (fun c => ((4 : UInt8), c)) ++ (streamWrite body ++ [[]]).map (fun c => ((5 : UInt8), c)))) := by
-      simp [requestRecords, hw]
-    refine ⟨init, e2, by simpa using e3, e4, hr, ?_⟩
-    rw [hr] at h
-    simp only [Option.map_some, Option.some.injEq] at h
-    unfold parse
-    rw [← h]
-    rw [parseRecs_frames 1 (by omega) _ ?_ _ (Nat.le_refl _)]
-    · simp [restRecs]
-    · intro r hr
-      simp only [List.mem_cons, List.mem_append, List.mem_map] at hr
-      rcases hr with rfl | ⟨c, hc, rfl⟩ | ⟨c, hc, rfl⟩
-      · simp [beginBody]
-      · rcases hc with h | h | h
-        · have := (e2 c h).2; simp only [maxWrite] at this; simp only; omega
-        · subst h; simp
-        · simp at h
-      · rcases hc with h | h | h
-        · have := (b2 c h).2; simp only [maxWrite] at this; simp only; omega
-        · subst h; simp
-        · simp at h
+      init.flatten = (pairs.map (fun p => encPair p.1 p.2)).flatten ∧
+      requestRecords pairs body = ((1 : UInt8), beginBody) ::
+        ((init ++ [[]]).map (fun c => ((4 : UInt8), c)) ++ (streamWrite body ++ [[]]).map (fun c => ((5 : UInt8), c))) ∧
+      parse (encodeRequest pairs body) =
+        some (toRec 1 (1, beginBody) :: restRecs (init ++ [[]]) (streamWrite body ++ [[]])) := by
+  have hw := writePairsBW_spec pairs 0 ⟨[], []⟩ (by simp [BW.Inv])
+  obtain ⟨init, e1, e2, e3⟩ := BW.records_spec _ hw.1
+  obtain ⟨b1, b2⟩ := streamWrite_spec body
+  have hr : requestRecords pairs body = ((1 : UInt8), beginBody) ::
+      ((init ++ [[]]).map (fun c => ((4 : UInt8), c)) ++ (streamWrite body ++ [[]]).map (fun c => ((5 : UInt8), c))) := by
+    simp [requestRecords, e1]
+  refine ⟨init, e2, by rw [e3, hw.2]; simp [BW.stream], hr, ?_⟩
+  unfold parse encodeRequest
+  rw [hr]
+  rw [parseRecs_frames 1 (by omega) _ ?_ _ (Nat.le_refl _)]
+  · simp [restRecs]
+  · intro r hr
+    simp only [List.mem_cons, List.mem_append, List.mem_map] at hr
+    rcases hr with rfl | ⟨c, hc, rfl⟩ | ⟨c, hc, rfl⟩
+    · simp [beginBody]
+    · rcases hc with h | h | h
+      · have := (e2 c h).2; simp only [maxWrite] at this; simp only; omega
+      · subst h; simp
+      · simp at h
+    · rcases hc with h | h | h
+      · have := (b2 c h).2; simp only [maxWrite] at this; simp only; omega
+      · subst h; simp
+      · simp at h
 
 /-! ### response side -/
 theorem splitHeader_some (conn : Bytes) (x : UInt8 × UInt8 × Nat × Nat × Nat × Bytes)
@@ -421,113 +490,6 @@ theorem allBeforeEnd_eq_stdoutOf : ∀ (rs : List Rec),
         · have : (r.typ == 6) = false := by simpa using h6
           simp [this, he, ih']
 
-/-! ### the call-level bufio model refines to the abstraction used by `writePairsLoop` / `requestRecords` -/
-theorem BW.write_fits (d : Bool) (b : BW) (p : Bytes) (h : p.length ≤ maxWrite - b.buf.length) :
-    BW.write d b p = { b with buf := b.buf ++ p } := by
-  unfold BW.write BW.writeLoop
-  have : ¬ p.length > maxWrite - b.buf.length := by omega
-  simp [this]
-
-theorem streamWrite_good (c : Bytes) (h : Good c) : streamWrite c = [c] := by
-  unfold streamWrite
-  obtain ⟨h1, h2⟩ := h
-  cases hl : c.length with
-  | zero => omega
-  | succ n =>
-    unfold chunks
-    have h0 : ¬ c.length = 0 := by omega
-    simp only [h0, if_false]
-    have ht : c.take maxWrite = c := List.take_of_length_le h2
-    have hd : c.drop maxWrite = [] := List.drop_eq_nil_of_le h2
-    rw [ht, hd]
-    cases n <;> simp [chunks]
-
-theorem streamWrite_nil : streamWrite [] = [] := by simp [streamWrite, chunks]
-
-theorem flush_records (b : BW) (hb : b.buf.length ≤ maxWrite) :
-    (b.flush.out.map streamWrite).flatten = (b.out.map streamWrite).flatten ++ streamWrite b.buf := by
-  unfold BW.flush
-  by_cases h0 : b.buf.length = 0
-  · have : b.buf = [] := List.eq_nil_of_length_eq_zero h0
-    simp [h0, this, streamWrite_nil]
-  · simp [h0]
-
-theorem writePairsBW_eq : ∀ (pairs : List (Bytes × Bytes)) (nn : Nat) (b : BW),
-    nn = b.buf.length → b.buf.length ≤ maxWrite →
-    (writePairsBW pairs nn b).map BW.records =
-      writePairsLoop pairs nn b.buf (b.out.map streamWrite).flatten := by
-  intro pairs
-  induction pairs with
-  | nil =>
-    intro nn b _ hb
-    simp [writePairsBW, writePairsLoop, BW.records, flush_records b hb]
-  | cons p rest ih =>
-    intro nn b hnn hb
-    obtain ⟨k, v⟩ := p
-    unfold writePairsBW writePairsLoop
-    by_cases hp : panics k v = true
-    · simp [hp]
-    · have hp' : panics k v = false := by simpa using hp
-      simp only [hp', Bool.false_eq_true, if_false]
-      have hlen : (encPair k (truncVal k v)).length ≤ maxWrite := by
-        have := encPair_length_le k (truncVal k v)
-        have := truncVal_bound k v hp'
-        omega
-      have hm : (encSize k.length ++ encSize (truncVal k v).length).length + k.length + (truncVal k v).length =
-          (encPair k (truncVal k v)).length := by simp [encPair]; omega
-      rw [hm]
-      have hE : (encPair k (truncVal k v)).length =
-          (encSize k.length).length + (encSize (truncVal k v).length).length + k.length + (truncVal k v).length := by
-        simp [encPair]; omega
-      by_cases hfl : nn + (encPair k (truncVal k v)).length > maxWrite
-      · simp only [hfl, decide_true, if_true, Nat.zero_add]
-        have hfb : b.flush.buf = [] := by
-          unfold BW.flush; split
-          · exact List.eq_nil_of_length_eq_zero (by assumption)
-          · rfl
-        have w1 : (encSize k.length ++ encSize (truncVal k v).length).length ≤ maxWrite - b.flush.buf.length := by
-          rw [hfb]; simp only [List.length_append, List.length_nil]; omega
-        rw [BW.write_fits true b.flush _ w1]
-        have w2 : k.length ≤ maxWrite -
-            ({ b.flush with buf := b.flush.buf ++ (encSize k.length ++ encSize (truncVal k v).length) } : BW).buf.length := by
-          simp only [hfb, List.nil_append, List.length_append]; omega
-        rw [BW.write_fits false _ k w2]
-        have w3 : (truncVal k v).length ≤ maxWrite - ({ b.flush with buf := b.flush.buf ++
-            (encSize k.length ++ encSize (truncVal k v).length) ++ k } : BW).buf.length := by
-          simp only [hfb, List.nil_append, List.length_append]; omega
-        rw [BW.write_fits false _ _ w3]
-        rw [ih _ _ (by simp only [hfb, List.nil_append, List.length_append]; omega)
-          (by simp only [hfb, List.nil_append, List.length_append]; omega)]
-        simp only [hfb, List.nil_append, flush_records b hb]
-        simp [encPair]
-      · simp only [hfl, decide_false, Bool.false_eq_true, if_false]
-        have w1 : (encSize k.length ++ encSize (truncVal k v).length).length ≤ maxWrite - b.buf.length := by
-          simp only [List.length_append]; omega
-        rw [BW.write_fits true b _ w1]
-        have w2 : k.length ≤ maxWrite -
-            ({ b with buf := b.buf ++ (encSize k.length ++ encSize (truncVal k v).length) } : BW).buf.length := by
-          simp only [List.length_append]; omega
-        rw [BW.write_fits false _ k w2]
-        have w3 : (truncVal k v).length ≤ maxWrite - ({ b with buf := b.buf ++
-            (encSize k.length ++ encSize (truncVal k v).length) ++ k } : BW).buf.length := by
-          simp only [List.length_append]; omega
-        rw [BW.write_fits false _ _ w3]
-        rw [ih _ _ (by simp only [List.length_append]; omega) (by simp only [List.length_append]; omega)]
-        simp [encPair]
-
-theorem bodyBW_records (body : Bytes) : (bodyBW body).records = streamWrite body ++ [[]] := by
-  unfold bodyBW
-  by_cases h : body.length ≤ maxWrite
-  · rw [BW.write_fits true _ _ (by simpa using h)]
-    simp only [BW.records, List.nil_append]
-    rw [flush_records _ (by simpa using h)]
-    simp
-  · have hlt : maxWrite < body.length := by omega
-    have hw : BW.write true ⟨[], []⟩ body = ⟨[], [body]⟩ := by
-      simp [BW.write, BW.writeLoop, hlt]
-    rw [hw]
-    simp [BW.records, BW.flush]
-
 /-! ### environment building -/
 theorem lookup_append (k : Bytes) (a b : List Op) : lookup k (a ++ b) = b.foldl (step k) (lookup k a) := by
   simp [lookup, List.foldl_append]
@@ -566,7 +528,7 @@ theorem hdrOps_not_proxy (i : RtIn) : ∀ o ∈ hdrOps i, o.key ≠ kHTTP_PROXY 
     subst hh
     intro heq
     apply hne
-    have : kHTTP_PROXY = sHTTP_ ++ sPROXY := by decide
+    have : kHTTP_PROXY = sHTTP_ ++ sPROXY := by simp [kHTTP_PROXY, sHTTP_, sPROXY]
     rw [this] at heq
     simp only [Op.key] at heq
     exact List.append_cancel_left heq
@@ -597,7 +559,7 @@ theorem env_core (i : RtIn) (hdrs' : List (Bytes × List Bytes)) (k : Bytes)
       (staticA ++ staticH { i with hdrs := hdrs' } ++ staticB { i with hdrs := hdrs' }) =
       pathInfoOps i (staticA ++ staticH i ++ staticB i) := by
     unfold pathInfoOps
-    rw [← static_lookup i hdrs' kPATH_INFO (by decide) (by decide)]
+    rw [← static_lookup i hdrs' kPATH_INFO (by simp [kPATH_INFO, kCONTENT_LENGTH]) (by simp [kPATH_INFO, kCONTENT_TYPE])]
   have hE : envOps { i with hdrs := hdrs' } = envOps i := rfl
   unfold envLog
   simp only [hp, hE]
@@ -615,9 +577,5 @@ theorem env_core (i : RtIn) (hdrs' : List (Bytes × List Bytes)) (k : Bytes)
       simp [step, this]
     rw [this, this]
   rw [hf { i with hdrs := hdrs' } _ rfl rfl]
-
-/-- a 65493-byte string (one byte more than fits beside an empty name / value) for the witnesses -/
-def big : Bytes := List.replicate 65493 0
-theorem big_length : big.length = 65493 := List.length_replicate ..
 
 end BfeVerif.C55
